@@ -705,6 +705,47 @@ def st_quals_exhaustive(ctx, depth):
     return out
 
 
+def st_bsearch(ctx, n, label="bsearch"):
+    """std's binary_search_by itself (the model of the ALGORITHM, PurlModel/BinSearch.lean, against the linked std):
+    slices of every length 0..40 (and some long ones), sorted / sorted with repeats / unsorted, probes present, absent,
+    below and above everything; keys over a small alphabet so that prefixes, '_' vs letters and non-ASCII meet"""
+    import itertools
+    r = ctx.rng(label)
+    out = []
+    words = ["", "a", "a_", "a_b", "aa", "aab", "ab", "b", "checksum", "k", "z", "z9", "é", "\U0001f600", "A", "_", "-", "a-", "a."]
+
+    def req(probe, keys):
+        return case("bsearch %s %s" % (hx(probe), ",".join(hx(k) for k in keys) if keys else "~"), label)
+
+    # exhaustive: every sorted slice over 5 keys of length <= 5 (with repeats), every probe
+    small = ["a", "b", "c", "d", "e"]
+    for L in range(0, 6):
+        for tup in itertools.combinations_with_replacement(small, L):
+            for probe in ["", "a", "b", "bb", "c", "e", "f"]:
+                out.append(req(probe, list(tup)))
+    # every permutation of 4 distinct keys (unsorted slices: the algorithm is deterministic, the model must follow it)
+    for tup in itertools.permutations(["a", "b", "c", "d"]):
+        for probe in ["a", "b", "c", "d", "bb"]:
+            out.append(req(probe, list(tup)))
+    for _ in range(n):
+        L = r.pick([0, 1, 2, 3, 4, 5, 6, 7, 8, 9, 15, 16, 17, 31, 32, 33, 40]) if r.chance(3, 4) else r.below(200)
+        mode = r.below(4)
+        if mode == 0:      # strictly ascending numbered keys
+            keys = sorted(set("k%03d" % r.below(3 * L + 1) for _ in range(L)))
+        elif mode == 1:    # ascending with repeats
+            keys = sorted(r.pick(words) for _ in range(L))
+        elif mode == 2:    # arbitrary order
+            keys = [r.pick(words) for _ in range(L)]
+        else:              # distinct words, ascending (scalar-value order = UTF-8 byte order)
+            keys = sorted(set(r.pick(words) for _ in range(L)))
+        if keys and r.chance(2, 3):
+            probe = r.pick(keys)
+        else:
+            probe = r.pick(words + ["k%03d" % r.below(3 * L + 1), "zzzz", ""])
+        out.append(req(probe, keys))
+    return out
+
+
 def st_qcmp(ctx, n, label="qcmp"):
     r = ctx.rng(label)
     out = []
